@@ -141,3 +141,43 @@ Example C13_nonvacuous :
   convert_api None (1, 19) (sample ++ [0]) = Err TrailingData /\
   convert_api None (1, 19) [43; 1] = Err Eoi.
 Proof. exact sample_ok. Qed.
+
+(* ---------- additions: error kinds; InvalidVersion ONLY for invalid versions ---------- *)
+From Aldrin Require Import Codec.ConvertVersion.
+
+(* the walker fails with UnexpectedEoi, InvalidSerialization, TooDeeplyNested or Overflow only: in
+   particular never with InvalidVersion or TrailingData *)
+Theorem C13_walker_error_kinds : forall b e, conv_value b = Err e ->
+  e = Eoi \/ e = Invalid \/ e = TooDeep \/ e = Overflow.
+Proof. exact conv_value_err_kinds. Qed.
+Print Assumptions C13_walker_error_kinds.
+
+(* the converse of C13_invalid_version: the API answers InvalidVersion only when a version is invalid *)
+Theorem C13_invalid_version_only : forall from to b,
+  convert_api from to b = Err InvalidVersion ->
+  epoch_of (match from with Some v => v | None => (1, 20) end) = Err InvalidVersion \/
+  epoch_of to = Err InvalidVersion.
+Proof. exact invalid_version_only. Qed.
+Print Assumptions C13_invalid_version_only.
+
+(* both directions, in the literal version numbers: InvalidVersion exactly when `from` (default
+   1.20) or `to` is outside 1.14..1.20, whatever the bytes *)
+Theorem C13_invalid_version_iff : forall from to b,
+  convert_api from to b = Err InvalidVersion <->
+  (~ (fst (match from with Some v => v | None => (1, 20) end) = 1 /\
+      14 <= snd (match from with Some v => v | None => (1, 20) end) <= 20) \/
+   ~ (fst to = 1 /\ 14 <= snd to <= 20)).
+Proof. exact invalid_version_numbers. Qed.
+Print Assumptions C13_invalid_version_iff.
+
+(* TrailingData only from the API's own test: the walker accepted and left input over *)
+Theorem C13_trailing_data_only : forall from to b,
+  convert_api from to b = Err TrailingData -> exists out x rest, conv_value b = Ok (out, x :: rest).
+Proof. exact trailing_data_only. Qed.
+Print Assumptions C13_trailing_data_only.
+
+(* the complete list of error kinds of the API *)
+Theorem C13_api_error_kinds : forall from to b e, convert_api from to b = Err e ->
+  e = InvalidVersion \/ e = TrailingData \/ e = Eoi \/ e = Invalid \/ e = TooDeep \/ e = Overflow.
+Proof. exact convert_api_err_kinds. Qed.
+Print Assumptions C13_api_error_kinds.
